@@ -329,6 +329,8 @@ structure MonSt where
   credit : Mon.Credit := {}
   ivl : Mon.Interval := {}
   q2open : List Nat := []         -- C07: inbound QoS 2 ids notified, exchange still open
+  inTbl : Mon.PeerTable := []     -- C13: alias bindings the peer announced on this connection
+  ownMps : Option Nat := none     -- C14: the Maximum Packet Size we announced on this connection
 deriving Inhabited
 
 def ivContains (ivs : List Alloc.Iv) (v : Nat) : Bool := ivs.any fun iv => iv.lo ≤ v && v ≤ iv.hi
@@ -423,6 +425,62 @@ def monitorCall (cfg : Cfg) (m : MonSt) (name : String) (ln : Nat) (op : List St
            else r
          | none => r)
       | _ => r
+    -- C13 (sender side): an alias-only PUBLISH whose alias no emitted PUBLISH of this connection bound
+    let r := match op with
+      | "send" :: _ =>
+        (match parseDescr oracle with
+         | some p =>
+           let tbl := match delivered with | some _ => [] | none => m.peer
+           let accepted := !Mon.hasError evs ∧ (evs.any (fun (e : Ev) => match e with | .send q _ => q.kind = Kind.publish | _ => false) ∨
+             (!m.prev.isEmpty ∧ ((g "store").splitOn ":{").length > ((gp "store").splitOn ":{").length))
+           if p.ver = 5 ∧ p.kind = Kind.publish ∧ p.topic.isEmpty ∧ (Mon.peerResolve tbl p).isNone ∧ accepted then
+             r.viol s!"C13 unbound_alias_accepted@{site}" s!"{here}: a PUBLISH with an empty topic and alias {showOptN p.alias} was accepted although no PUBLISH emitted on this connection bound that alias (receiver's table {tbl}): {evS}" else r
+         | none => r)
+      | _ => r
+    -- C13 (receiver side): ghost table of the bindings the peer announced on this connection
+    let inTbl0 : Mon.PeerTable := match op, delivered with
+      | ["closed"], _ => []
+      | _, some _ => []
+      | _, none => m.inTbl
+    let (inTbl, r) := match op with
+      | "recv" :: _ =>
+        (match parseParsed (parseRecvOracle oracle).parsed with
+         | .ok p =>
+           if p.ver = 5 ∧ p.kind = Kind.publish ∧ (parseRecvOracle oracle).frame ≠ "none" then
+             let r := evs.foldl (fun (r : Report) (e : Ev) => match e with
+               | .recv q =>
+                 if q.kind = Kind.publish ∧ q.extracted then
+                   match q.alias with
+                   | some a =>
+                     if Mon.peerLookup a inTbl0 ≠ some q.topic then
+                       r.viol s!"C13 delivered_under_wrong_topic@{site}" s!"{here}: an alias-only PUBLISH (alias {a}) was delivered with topic {q.topic}; the peer's announcements on this connection bind it to {Mon.peerLookup a inTbl0} (table {inTbl0})"
+                     else r
+                   | none => r
+                 else r
+               | _ => r) r
+             let t := match p.alias with
+               | some a => if !p.topic.isEmpty ∧ (!Mon.hasError evs ∨ evs.any (fun (e : Ev) => match e with | .recv q => q.kind = Kind.publish | _ => false)) then (a, p.topic) :: inTbl0.filter (fun (kv : Nat × List Nat) => kv.1 ≠ a) else inTbl0
+               | none => inTbl0
+             (t, r)
+           else (inTbl0, r)
+         | .error _ => (inTbl0, r))
+      | _ => (inTbl0, r)
+    -- C14 (receiver side): a frame larger than the maximum we announced is never delivered
+    let ownMps0 : Option Nat := match op with | ["closed"] => none | _ => m.ownMps
+    let r := match op with
+      | "recv" :: _ =>
+        let o := parseRecvOracle oracle
+        if o.frame = "none" ∨ o.frame = "err" then r else
+        let bodyLen := (((o.frame.splitOn ":").getD 1 "").length) / 2
+        let deliveredAny := evs.any (fun (e : Ev) => match e with | .recv _ => true | _ => false)
+        (match ownMps0 with
+         | some l => if totalSize bodyLen > l ∧ deliveredAny then
+             r.viol s!"C14 oversize_delivered@{site}" s!"{here}: a received packet of {totalSize bodyLen} bytes was delivered although we announced Maximum Packet Size {l}: {evS}" else r
+         | none => r)
+      | _ => r
+    let ownMps : Option Nat := evs.foldl (fun acc (e : Ev) => match e with
+      | .send p _ => if p.ver = 5 ∧ (p.kind = Kind.connect ∨ (p.kind = Kind.connack ∧ p.rc = some 0)) then Mon.findProp p pMPS else acc
+      | _ => acc) ownMps0
     -- C11 / C17: the gates, evaluated on the implementation's observations
     let statusOf (x : String) : Status := if x = "C" then .connected else if x = "G" then .connecting else .disconnected
     let sessionKeys := ["pidfree", "puback", "pubrec", "pubcomp", "store", "h2", "need_store"]
@@ -670,7 +728,7 @@ def monitorCall (cfg : Cfg) (m : MonSt) (name : String) (ln : Nat) (op : List St
              r.viol s!"C07 swallowed@{site}" s!"{here}: a valid QoS 2 PUBLISH (id {id}) was accepted without error but not notified, although no earlier PUBLISH of this exchange was notified (open exchanges {q2}): {evS}" else r
          | .error _ => r)
       | _ => r
-    ({ prev := dig, armed := armed, peer := peer, peerTam := peerTam, armedBad := armedBad, credit := cr, ivl := iv, q2open := q2' }, r)
+    ({ prev := dig, armed := armed, peer := peer, peerTam := peerTam, armedBad := armedBad, credit := cr, ivl := iv, q2open := q2', inTbl := inTbl, ownMps := ownMps }, r)
 
 structure ConnRun where
   cs : ConnSt := {}
